@@ -219,10 +219,104 @@ def char_boundary_offset(fn, e, recv):
     return False
 
 
+INT_BITS = {"u8": 8, "u16": 16, "u32": 32, "u64": 64, "usize": 64, "u128": 128}
+
+
+def decimal_accumulator_bound(fn, acc):
+    """Premise-checked lemma for `acc = acc * 10 + digit` loops.  Returns the largest value acc can reach, or None when a premise fails:
+      P1 every definition of acc is the constant 0 or (acc * 10 + d).0 with d the Some payload of char::to_digit(_, 10) (so 0 <= d <= 9);
+      P2 a counter c has only the definitions 0 and (c + 1).0, and its increment and the accumulation run in the same loop round;
+      P3 the accumulation is dominated by the failing edge of a guard on that counter - `c + 1 > K`, `c >= K` or `c > K` - whose other edge
+         does not reach the accumulation; hence at most D = K (resp. K, K + 1) digits are ever accumulated and acc <= 10^D - 1."""
+    defs = cfg.defs_of_local(fn, acc)
+    accum_bbs = []
+    for d in defs:
+        if d[0] != "stmt" or d[3]["rv"]["k"] != "use":
+            return None
+        e = cfg.expr_operand(fn, d[3]["rv"]["a"], 8)
+        if e == ("const", 0):
+            continue
+        ok = e[0] == "place" and e[2] == [("field", "0")] and e[1][0] == "bin" and e[1][1] == "AddWithOverflow"
+        if ok:
+            m, dg = e[1][2], e[1][3]
+            ok = m[0] == "place" and m[2] == [("field", "0")] and m[1][0] == "bin" and m[1][1] == "MulWithOverflow" and m[1][2] in (("phi", acc), ("local", acc)) \
+                and m[1][3] == ("const", 10)
+            ok = ok and dg[0] == "place" and dg[2] == [("downcast", "Some"), ("field", "0")] and dg[1][0] == "call" and dg[1][1] == "char::to_digit" \
+                and dg[1][2][1] == ("const", 10)
+        if not ok:
+            return None
+        accum_bbs.append(d[1])
+    if len(accum_bbs) != 1:
+        return None
+    ab = accum_bbs[0]
+    best = None
+    for dom in fn.dominators().get(ab, ()):
+        t = fn.blocks[dom]["term"]
+        if t["k"] != "switch" or t["dty"] != "bool" or t["vals"] != [0]:
+            continue
+        e = cfg.expr_operand(fn, t["discr"], 8)
+        if e[0] != "bin" or e[1] not in ("Gt", "Ge") or e[3][0] != "const" or not isinstance(e[3][1], int):
+            continue
+        K = e[3][1]
+        lhs = e[2]
+        c = None
+        plus1 = False
+        if lhs[0] in ("phi", "local"):
+            c = lhs[1]
+        elif lhs[0] == "place" and lhs[2] == [("field", "0")] and lhs[1][0] == "bin" and lhs[1][1] == "AddWithOverflow" and lhs[1][2][0] in ("phi", "local") and lhs[1][3] == ("const", 1):
+            c, plus1 = lhs[1][2][1], True
+        if c is None:
+            continue
+        # counter: 0 and +1 only, incremented between the guard and the accumulation (same round)
+        okc = True
+        incs = []
+        for d in cfg.defs_of_local(fn, c):
+            if d[0] != "stmt" or d[3]["rv"]["k"] != "use":
+                okc = False
+                break
+            ce = cfg.expr_operand(fn, d[3]["rv"]["a"], 6)
+            if ce == ("const", 0):
+                continue
+            if ce[0] == "place" and ce[2] == [("field", "0")] and ce[1][0] == "bin" and ce[1][1] == "AddWithOverflow" and ce[1][2] in (("phi", c), ("local", c)) and ce[1][3] == ("const", 1):
+                incs.append(d[1])
+            else:
+                okc = False
+        false_edge = t["targets"][0]
+        if not okc or len(incs) != 1 or not cfg.dominated_by_edge(fn, ab, dom, false_edge):
+            continue
+        inc = incs[0]
+        if not (cfg.dominated_by_edge(fn, inc, dom, false_edge) or inc == false_edge):
+            continue
+        # digits after this round: guard false means ... (the increment happens once per round, after the guard)
+        if plus1:
+            D = K if e[1] == "Gt" else K - 1          # c + 1 <= K  /  c + 1 < K
+        else:
+            D = K + 1 if e[1] == "Gt" else K          # c <= K -> c + 1 <= K + 1  /  c < K -> c + 1 <= K
+        best = D if best is None else min(best, D)
+    if best is None or best < 0:
+        return None
+    return 10 ** best - 1
+
+
 def discharge(fn, s):
     """returns a reason string when the panic site is mechanically discharged, else None"""
     t = s["term"]
     k = s["kind"]
+    if k in ("assert:Overflow(Mul)", "assert:Overflow(Add)") and t.get("k") == "assert":
+        c = t["cond"]
+        p = c.get("move") or c.get("copy")
+        if p is not None:
+            e = cfg.expr_local(fn, p["l"], 8)
+            acc = None
+            if e[0] == "bin" and e[1] == "MulWithOverflow" and e[2][0] in ("phi", "local") and e[3] == ("const", 10):
+                acc = e[2][1]
+            elif e[0] == "bin" and e[1] == "AddWithOverflow" and e[2][0] == "place" and e[2][1][0] == "bin" and e[2][1][1] == "MulWithOverflow" \
+                    and e[2][1][2][0] in ("phi", "local") and e[2][1][3] == ("const", 10):
+                acc = e[2][1][2][1]
+            if acc is not None and fn.local_ty(acc) in INT_BITS:
+                bound = decimal_accumulator_bound(fn, acc)
+                if bound is not None and bound <= 2 ** INT_BITS[fn.local_ty(acc)] - 1:
+                    return "decimal accumulator over a bounded number of digits (lemma: at most %d, type %s)" % (bound, fn.local_ty(acc))
     if k == "string-index" and t.get("k") == "call" and (t["f"].get("fn") or {}).get("key") == "str::split_at":
         recv = cfg.expr_operand(fn, t["args"][0], 10)
         off = cfg.expr_operand(fn, t["args"][1], 14)
